@@ -82,6 +82,8 @@ def api(call, fn, *a, **kw):
 #          with explicit, mixed and coarser units on the interval bounds
 #   cohost: seed -> every monitor object gets a twin (same requirement, same class) in the same process that receives the
 #          same calls with other sample values right before (and, offline, right after) each call of the observed object
+#   discrete_units: seed -> discrete-time specifications written in ticks are re-written for another sampling period and
+#          default unit, every interval in a unit notation of its own
 #   failed_eval: seed -> every offline object first evaluates another, damaged log (a sensor delivers None): the call raises
 #          half-way, the exception is swallowed, and the object is then used as if nothing had happened
 #   knobs: seed -> every upper-case integer tuning constant (>= 5, named like a limit / size / cache / threshold) found in the rtamt modules (cache sizes, scan limits,
@@ -208,29 +210,25 @@ def _dense_units(desc):
     du = urng.choice(['ms', 'us', 'ns'])
     cu = {'ms': 's', 'us': 'ms', 'ns': 'us'}[du]
 
-    def one(x, style):
+    def conv(x):
         q = Fraction(x) * 4
-        if style == 'plain' or q.denominator != 1 or q >= 200:
-            return x
-        if style == 'du':
-            return x + du
-        return fmt_num(Fraction(x) / 1000) + cu
+        return q.denominator == 1 and q < 200
+
+    def in_cu(x):
+        return fmt_num(Fraction(x) / 1000)
 
     def rw(m):
         a, sep, b = m.group(1), m.group(2), m.group(3)
-        sa, sb = urng.choice(['plain', 'plain', 'du', 'cu']), urng.choice(['plain', 'plain', 'du', 'cu'])
-        if sa == 'plain' and sb != 'plain' and urng.random() < 0.5:
-            sa = 'du'          # a unit-less begin would inherit the unit of the end bound: only equal units are left implicit
-        if sb == 'plain' and sa != 'plain':
-            sb = sa if urng.random() < 0.5 else 'du'
-        if sa == 'plain' and sb != 'plain':
-            sa = sb
-        ra, rb = one(a, sa), one(b, sb)
-        # a bound that could not be converted stays plain: then the other one must carry the default unit or nothing
-        if (ra == a) != (rb == b):
-            ra, rb = (a + du if ra != a else a), (b + du if rb != b else b)
-            if ra == a or rb == b:
-                ra, rb = a, b
+        styles = ['plain', 'plain', 'both_du', 'end_du', 'begin_du']
+        if conv(a) and conv(b):
+            # (a unit-less bound inherits the unit of the other bound: in the one-sided styles BOTH numbers are in that unit)
+            styles += ['both_cu', 'cu_du', 'du_cu', 'end_cu', 'begin_cu', 'end_cu', 'begin_cu']
+        st = styles[urng.randrange(len(styles))]
+        ra, rb = {
+            'plain': (a, b), 'both_du': (a + du, b + du), 'end_du': (a, b + du), 'begin_du': (a + du, b),
+            'both_cu': (in_cu(a) + cu, in_cu(b) + cu), 'cu_du': (in_cu(a) + cu, b + du), 'du_cu': (a + du, in_cu(b) + cu),
+            'end_cu': (in_cu(a), in_cu(b) + cu), 'begin_cu': (in_cu(a) + cu, in_cu(b)),
+        }[st]
         return '[' + ra + sep + rb + ']'
     d = dict(desc)
     d['spec'] = _IV.sub(rw, desc['spec'])
@@ -240,11 +238,55 @@ def _dense_units(desc):
     return d
 
 
+_IVD = None
+
+
+def _discrete_units(desc):
+    """run environment 'discrete_units': a discrete-time specification written in ticks for the default configuration (unit s,
+    period 1 s) is re-written, equivalently, for another sampling period / default unit, each interval in a notation of its
+    own (sim/units.py: plain, explicit unit on both bounds, on one bound only - the other one inherits it -, two different
+    units). The durations stay the same multiples of the sampling period (exact rational arithmetic), so the result must not
+    change; the time-stamps of the harness keep their numbers (they only feed the sampling-violation counter, which C13 - the
+    only check that reads it against a reference - opts out of)."""
+    global _IVD
+    import re
+    import random
+    from . import units as U_
+    if _IVD is None:
+        _IVD = re.compile(r'\[\s*([0-9]+)\s*([,:])\s*([0-9]+)\s*\]')
+    texts = [desc['spec']] + list(desc.get('subspecs') or [])
+    ivs = [m for t in texts for m in re.finditer(r'\[[^\]]*\]', t)]
+    if not ivs or any(not _IVD.fullmatch(m.group(0)) for m in ivs):
+        return desc
+    urng = random.Random(ENV['discrete_units'])
+    nt = U_.gen_notation(urng, p_plain=0.0)
+    ok = [True]
+
+    def rw(m):
+        lo, sep, hi = int(m.group(1)), m.group(2), int(m.group(3))
+        feas = U_.styles_for(lo, hi, nt)
+        if not feas:
+            ok[0] = False
+            return m.group(0)
+        return U_.render_interval(lo, hi, nt, feas[urng.randrange(len(feas))], sep)
+    d = dict(desc)
+    d['spec'] = _IVD.sub(rw, desc['spec'])
+    d['subspecs'] = [_IVD.sub(rw, t) for t in (desc.get('subspecs') or [])]
+    if not ok[0]:
+        return desc
+    d.update(U_.spec_config(nt))
+    UNIT_REWRITES[0] += 1
+    return d
+
+
 def new_spec(desc):
     """construct + declare (no parse)"""
     if ENV.get('dense_units') is not None and desc['cls'] in ('ct', 'ct_off', 'ct_on') and not desc.get('unit') \
-            and not desc.get('prior'):
+            and not desc.get('prior') and not desc.get('_keep_notation'):
         desc = _dense_units(desc)
+    if ENV.get('discrete_units') is not None and desc['cls'] in ('dt', 'dt_off', 'dt_on') and not desc.get('unit') \
+            and not desc.get('sampling') and not desc.get('prior') and not desc.get('_keep_notation'):
+        desc = _discrete_units(desc)
     if ENV.get('decor') is not None:
         desc = _decorate(desc)
     sem = SEMANTICS[desc.get('semantics', 'standard')]
@@ -385,6 +427,9 @@ def _build(desc):
             api('pastify', spec.pastify)
         return spec
     d0 = dict((k, v) for k, v in desc.items() if k not in ('prior', 'unit', 'sampling', 'sampling_omit_unit', 'sampling_first'))
+    if any(prior.get(k) is not None for k in ('unit', 'sampling', 'spec', 'io')):
+        d0['_keep_notation'] = True    # (the unit-notation environments never re-write an object that is going to be re-configured;
+        #                                 an object with a plain history - early reset, earlier logs - is re-written like a fresh one)
     for k in ('unit', 'sampling'):
         if prior.get(k):
             d0[k] = prior[k]
@@ -504,10 +549,12 @@ def ct_update(spec, batches, order=None):
         keep = [a for a in args if a[1] or a[0] not in seen]
         if keep:
             args = keep
-        seen.update(a[0] for a in args)
     if not getattr(spec, '_verif_structs', None):
         _twin(spec, lambda tw: api('update', tw.update, *[[a[0], [[q[0], _other(q[1])] for q in a[1]]] for a in args]))
-    return api('update', spec.update, *args)
+    out = api('update', spec.update, *args)
+    if ENV.get('omit_idle'):
+        seen.update(a[0] for a in args)       # (only an update the monitor accepted counts as "supplied before")
+    return out
 
 
 # ---------------------------------------------------------------------------------------------------
